@@ -586,7 +586,9 @@ def gen_value_d(rng, t, env, size, depth):
 
 
 # ---------------------------------------------------------------- random declarations
-FIELD_NAMES = ["a", "b", "c", "d", "e", "f", "g", "h", "x", "y", "z", "name", "value", "id", "élan"]
+FIELD_NAMES = ["a", "b", "c", "d", "e", "f", "g", "h", "x", "y", "z", "name", "value", "id", "élan",
+               # names whose length sits on a width boundary of the header's string length prefix (63 / 64 / 65 bytes)
+               "n" * 63, "m" * 64, "k" * 65]
 VARIANT_NAMES = ["A", "B", "C", "D", "Zed", "Alpha", "beta", "Gamma", "Aa", "AB", "Z"]
 
 
